@@ -31,8 +31,12 @@ func (u *URL) formatSSH() string {
 		result = fmt.Sprintf("%s@%s", u.User, result)
 	}
 
-	// Add port if present.
-	if u.Port != 0 {
+	// Add port if present. A zero (i.e. unspecified) port is normally omitted,
+	// but if the path itself begins with something that the parser would read
+	// as a port specification (a potentially empty digit sequence followed by
+	// a colon), then we have to emit the zero port explicitly, otherwise the
+	// formatted URL would parse to a different port and path (or not at all).
+	if u.Port != 0 || pathBeginsWithPortSpecification(u.Path) {
 		result = fmt.Sprintf("%s:%d", result, u.Port)
 	}
 
@@ -41,6 +45,20 @@ func (u *URL) formatSSH() string {
 
 	// Done.
 	return result
+}
+
+// pathBeginsWithPortSpecification returns whether or not the path component of
+// an SCP-style SSH URL would be (mis)interpreted by parseSCPSSH as beginning
+// with a port specification if it directly followed the hostname.
+func pathBeginsWithPortSpecification(path string) bool {
+	for i := 0; i < len(path); i++ {
+		if path[i] == ':' {
+			return true
+		} else if path[i] < '0' || path[i] > '9' {
+			return false
+		}
+	}
+	return false
 }
 
 // invalidDockerURLFormat is the value returned by formatDocker when a URL is
